@@ -81,26 +81,13 @@ def features(j, code):
 def tie_wiring(ctx):
     """(T) regenerate the wiring table of the 19 methods from gerror.go and check it equal to
     the model's by computation"""
-    binp, log = ctx.build_harness("xlate_gerr_wiring")
-    if not binp:
-        gl.fail(ctx, "translator build", log, "build")
-        return False
-    src = os.path.join(ctx.copy_repo(), "gerror", "gerror.go")
-    rc, out = vlib.sh([binp, "-base", src, "-name", "gen_base_wiring"], timeout=120)
-    if rc != 0:
-        gl.fail(ctx, "tie T: translator xlate_gerr_wiring could not read gerror/gerror.go", out, "tie")
-        return False
-    v = ("From Coq Require Import List.\nImport ListNotations.\nFrom GT Require Import GErrModel.\n"
-         + out +
-         "\nLemma tie_base_wiring : map gen_base_wiring all_methods = map base_wiring all_methods.\n"
-         "Proof. vm_compute. reflexivity. Qed.\n")
-    rc, out2 = ctx.coq_eval("GErrWiringGen_C15", v, timeout=300)
-    if rc != 0:
+    ok, detail = gl.tie_base_wiring(ctx)
+    if ok:
+        ctx.cov["tie_T"] = detail
+    else:
         ctx.cov["tie_T"] = "BROKEN"
-        ctx.tie_broken = out2
-        return False
-    ctx.cov["tie_T"] = "gen_base_wiring (from gerror/gerror.go, 19 methods) = GErrModel.base_wiring by vm_compute"
-    return True
+        ctx.tie_broken = detail
+    return ok
 
 
 def run(ctx):
